@@ -204,10 +204,48 @@ struct Into<void>
 };
 
 
+// Deserialize a second value into the destination that already holds the first one (AG bit 0), keeping a copy of the first
+// result (bit 1: the type can be copied): the destination must then hold the second value and the copy still the first.
+template <typename D, bool Copy>
+struct Keep
+{
+  D copy;
+  explicit Keep(const D& d) :copy(d) {}
+  void print() const { std::cout << " keep=" << hex(serialize_to_string(copy)); }
+};
+template <typename D>
+struct Keep<D, false>
+{
+  explicit Keep(const D&) {}
+  void print() const {}
+};
+template <typename D, int AG>
+struct Again
+{
+  static void run(const std::string& first, const std::string& second)
+  {
+    try
+    {
+      D d{};
+      { binlog::Range in(first.data(), first.size()); mserialize::deserialize(d, in); }
+      const Keep<D, (AG & 2) != 0> keep(d);
+      { binlog::Range in(second.data(), second.size()); mserialize::deserialize(d, in); }
+      std::cout << " rt2=" << hex(serialize_to_string(d));
+      keep.print();
+    }
+    catch (const std::exception& ex) { std::cout << " rt2=EXC:" << hex(std::string(ex.what())); }
+  }
+};
+template <typename D>
+struct Again<D, 0>
+{
+  static void run(const std::string&, const std::string&) {}
+};
+
 // Report the serialization side of one value.  `X` is a tag-compatible deserializable type
 // (or `void` if there is none); `D` says whether T itself is deserializable.
-template <typename T, typename RT, typename X, typename F = void>
-void report(int id, const T& v)
+template <typename T, typename RT, typename X, typename F = void, int AG = 0>
+void report(int id, const T& v, const T* w = nullptr)
 {
   const auto tag = mserialize::tag<T>();
   const std::string tagS(tag.data(), tag.size());
@@ -242,6 +280,7 @@ void report(int id, const T& v)
   report_roundtrip<RT>("rt", bytes);
   report_roundtrip<X>("xt", bytes);
   Into<F>::run(bytes);
+  Again<RT, AG>::run(bytes, w != nullptr ? serialize_to_string(*w) : std::string());
   std::cout << "\n";
 }
 
